@@ -38,19 +38,14 @@ vlib.bootstrap()
 from checks import _c11_gen as G  # noqa: E402
 
 PROP = "C11"
-ALARM_S = float(os.environ.get("C11_ALARM_S", "6"))
-CONFIRM_TIMEOUT_S = float(os.environ.get("C11_CONFIRM_S", "15"))
 
 K_BOOLWORD = "C11:aggregate-word-accepted"
 K_RAWCTOR = "C11:dict-api-concrete-constructor-raw-exception"
 
 
-class CaseTimeout(BaseException):
-    pass
+from checks import _c11_watchdog as WD  # noqa: E402
 
-
-def _on_alarm(signum, frame):
-    raise CaseTimeout()
+CaseTimeout = WD.CaseTimeout
 
 
 # --------------------------------------------------------------------------- observation (real code)
@@ -236,49 +231,8 @@ def warmup():
 
 
 def observe_guarded(case, w=None):
-    """observe() under an in-process alarm (re-armed every second in case a bare `except:` swallows it);
-    on alarm the case is re-run in up to 3 fresh processes with a subprocess-level time-out."""
-    signal.signal(signal.SIGALRM, _on_alarm)
-    stack = ""
-    try:
-        signal.setitimer(signal.ITIMER_REAL, ALARM_S, 1.0)
-        out = observe(case)
-        signal.setitimer(signal.ITIMER_REAL, 0)
-        return out
-    except CaseTimeout:
-        signal.setitimer(signal.ITIMER_REAL, 0)
-        stack = traceback.format_exc()
-    finally:
-        signal.setitimer(signal.ITIMER_REAL, 0)
-    if w is not None:
-        w.count("watchdog_alarm")
-    d = vlib.mkscratch("c11case")
-    cp = os.path.join(d, "case.json")
-    with open(cp, "w") as f:
-        json.dump(case, f)
-    timeouts = 0
-    try:
-        for attempt in range(3):
-            op = os.path.join(d, "out%d.json" % attempt)
-            try:
-                subprocess.run([vlib.PYTHON, "-W", "ignore", "-m", "checks.C11", "--one", cp, op],
-                               cwd=vlib.VERIF_ROOT, env=vlib.child_env(), timeout=CONFIRM_TIMEOUT_S,
-                               stdout=subprocess.DEVNULL, stderr=subprocess.DEVNULL)
-            except subprocess.TimeoutExpired:
-                timeouts += 1
-                continue
-            if os.path.exists(op):
-                with open(op) as f:
-                    out = json.load(f)
-                if w is not None:
-                    w.count("watchdog_alarm_not_reproduced")
-                return out
-    finally:
-        shutil.rmtree(d, ignore_errors=True)
-    if timeouts == 3:
-        m = re.findall(r'File "[^"]*/([^/"]+)", line (\d+), in (\w+)', stack)
-        return {"status": "hang", "reproduced": 3, "where": ["%s:%s %s" % x for x in m][-4:]}
-    return {"status": "unknown"}
+    """observe() under the per-case watchdog (see _c11_watchdog)"""
+    return WD.guarded("checks.C11", case, observe, w)
 
 
 def _intkeys(doc):
@@ -379,7 +333,7 @@ def run_job(job, w):
         rnd = vlib.rng(PROP, "base", idx)
         this = idx
         idx += job["stride"]
-        base = G.gen_base(rnd)
+        base = G.gen_base(rnd, small=job.get("small", False))
         produced += 1
         doc = base["doc"]
         ok = True
@@ -520,7 +474,7 @@ def main():
     n_extra = (240 // per) if thorough else (40 // per)
     n_jobs = n_mand + n_extra
     jobs = [{"start": j, "stride": n_jobs, "count": per, "tier": c.tier, "file_every": 8 if thorough else 4,
-             "materialise_every": 4 if thorough else 2, "all_values": thorough} for j in range(n_jobs)]
+             "materialise_every": 4 if thorough else 2, "all_values": thorough, "small": not thorough} for j in range(n_jobs)]
     budget = 780 if thorough else 60
     env = {"PYTHONWARNINGS": "ignore::SyntaxWarning"}
     vlib.fanout("checks.C11", jobs[:n_mand], c, timeout=1200 if thorough else 600, env=env)
